@@ -17,8 +17,8 @@ theorem lineAs_complete (s : Bool) (t : UInt8) (mk : DataIndex → RespIdx) (mkv
     (hleaf : ∀ b, parseLeaf s t b = some (parseLineAs mk s b))
     (hmk : ∀ d a, toRespVec d (mk a) = (sliceGet d a.1 a.2).map mkv)
     (hadv : ∀ c a, advance c (mk a) = mk (a.1 + c, a.2 + c))
-    (p : Bytes) (ch : UInt8) (rest : Bytes) (f : Nat) (hp : LF ∉ p) (hterm : TermOk s ch) (hf : 1 ≤ f) :
-    ∃ idx, parseResp s f (t :: (p ++ [ch, LF]) ++ rest) = .ok (idx, (t :: (p ++ [ch, LF])).length) ∧
+    (p : Bytes) (ch : UInt8) (rest : Bytes) (f d : Nat) (hp : LF ∉ p) (hterm : TermOk s ch) (hf : 1 ≤ f) :
+    ∃ idx, parseResp s f d (t :: (p ++ [ch, LF]) ++ rest) = .ok (idx, (t :: (p ++ [ch, LF])).length) ∧
       toRespVec (t :: (p ++ [ch, LF])) idx = some (mkv p) := by
   obtain ⟨f', rfl⟩ : ∃ f', f = f' + 1 := ⟨f - 1, by omega⟩
   have hX : (p ++ [ch, LF]) ++ rest = p ++ ch :: LF :: rest := by simp
@@ -33,9 +33,9 @@ theorem lineAs_complete (s : Bool) (t : UInt8) (mk : DataIndex → RespIdx) (mkv
   simp only [hc, and_self, if_true, List.drop_succ_cons, List.drop_zero, Nat.add_sub_cancel, Option.map_some]
   rw [List.take_left' rfl]
 
-theorem bulk_complete (s : Bool) (L : Bytes) (ch : UInt8) (p t rest : Bytes) (f : Nat)
+theorem bulk_complete (s : Bool) (L : Bytes) (ch : UInt8) (p t rest : Bytes) (f d : Nat)
     (hL : btoiI64 L = some (p.length : Int)) (hterm : TermOk s ch) (ht : BulkTermOk s t) (hf : 1 ≤ f) :
-    ∃ idx, parseResp s f (tBulk :: (L ++ [ch, LF] ++ (p ++ t)) ++ rest) =
+    ∃ idx, parseResp s f d (tBulk :: (L ++ [ch, LF] ++ (p ++ t)) ++ rest) =
         .ok (idx, (tBulk :: (L ++ [ch, LF] ++ (p ++ t))).length) ∧
       toRespVec (tBulk :: (L ++ [ch, LF] ++ (p ++ t))) idx = some (.bulk p) := by
   obtain ⟨f', rfl⟩ : ∃ f', f = f' + 1 := ⟨f - 1, by omega⟩
@@ -80,11 +80,11 @@ theorem bulk_complete (s : Bool) (L : Bytes) (ch : UInt8) (p t rest : Bytes) (f 
   have : L.length + 2 + p.length + 1 - (L.length + 2 + 1) = p.length := by omega
   rw [this, List.take_left' rfl]
 
-theorem nil_complete (s : Bool) (t : UInt8) (L : Bytes) (ch : UInt8) (len : Int) (rest : Bytes) (f : Nat)
+theorem nil_complete (s : Bool) (t : UInt8) (L : Bytes) (ch : UInt8) (len : Int) (rest : Bytes) (f d : Nat)
     (hL : btoiI64 L = some len) (hneg : len < 0) (hterm : TermOk s ch) (hf : 1 ≤ f) :
-    (t = tBulk → ∃ idx, parseResp s f (t :: (L ++ [ch, LF]) ++ rest) = .ok (idx, (t :: (L ++ [ch, LF])).length) ∧
+    (t = tBulk → ∃ idx, parseResp s f d (t :: (L ++ [ch, LF]) ++ rest) = .ok (idx, (t :: (L ++ [ch, LF])).length) ∧
       toRespVec (t :: (L ++ [ch, LF])) idx = some .bulkNil) ∧
-    (t = tArr → ∃ idx, parseResp s f (t :: (L ++ [ch, LF]) ++ rest) = .ok (idx, (t :: (L ++ [ch, LF])).length) ∧
+    (t = tArr → nestAllowed d → ∃ idx, parseResp s f d (t :: (L ++ [ch, LF]) ++ rest) = .ok (idx, (t :: (L ++ [ch, LF])).length) ∧
       toRespVec (t :: (L ++ [ch, LF])) idx = some .arrNil) := by
   obtain ⟨f', rfl⟩ : ∃ f', f = f' + 1 := ⟨f - 1, by omega⟩
   have hX : (L ++ [ch, LF]) ++ rest = L ++ ch :: LF :: rest := by simp
@@ -95,15 +95,17 @@ theorem nil_complete (s : Bool) (t : UInt8) (L : Bytes) (ch : UInt8) (len : Int)
     rw [len_complete s L ch _ _ hL hterm]
     simp only [hneg, if_true, shift1]
     exact ⟨_, by congr 2; simp; omega, by simp [advance, RespT.map, toRespVec, RespT.mapOpt]⟩
-  · intro ht; subst ht
+  · intro ht hallow; subst ht
+    have hne : ¬ (nestingExceeded d = true) := by unfold nestAllowed at hallow; simp [hallow]
     simp only [List.cons_append, parseResp, parseLeaf_arr, hX, if_true]
+    rw [if_neg hne]
     unfold parseArrayHeader
     rw [len_complete s L ch _ _ hL hterm]
     simp only [hneg, if_true, shift1]
     exact ⟨_, by congr 2; simp; omega, by simp [advance, RespT.map, toRespVec, RespT.mapOpt]⟩
 
 theorem arrayHeader_complete (s : Bool) (L : Bytes) (ch : UInt8) (k : Nat) (more : Bytes)
-    (hL : btoiI64 L = some (k : Int)) (hterm : TermOk s ch) (hcap : capacityOverflow k = false) :
+    (hL : btoiI64 L = some (k : Int)) (hterm : TermOk s ch) (hcap : reservePanics k = false) :
     parseArrayHeader s (L ++ ch :: LF :: more) = .elems k (L.length + 2) := by
   unfold parseArrayHeader
   rw [len_complete s L ch _ _ hL hterm]
@@ -111,60 +113,62 @@ theorem arrayHeader_complete (s : Bool) (L : Bytes) (ch : UInt8) (k : Nat) (more
   simp [hnn, hcap]
 
 mutual
-theorem accepts_complete (s : Bool) : ∀ (v : Resp) (e : Bytes), Accepts s v e → ∀ (rest : Bytes) (f : Nat),
-    (e ++ rest).length + 1 ≤ f →
-    ∃ idx, parseResp s f (e ++ rest) = .ok (idx, e.length) ∧ toRespVec e idx = some v
-  | .simple p, e, h, rest, f, hf => by
+theorem accepts_complete (s : Bool) : ∀ (v : Resp) (e : Bytes), Accepts s v e → ∀ (rest : Bytes) (f d : Nat),
+    NestOk d v → (e ++ rest).length + 1 ≤ f →
+    ∃ idx, parseResp s f d (e ++ rest) = .ok (idx, e.length) ∧ toRespVec e idx = some v
+  | .simple p, e, h, rest, f, d, hn, hf => by
     simp only [Accepts] at h
     obtain ⟨ch, he, hp, hterm⟩ := h
     subst he
     exact lineAs_complete s tSimple .simple .simple (parseLeaf_simple s)
       (by intro d a; simp [toRespVec, RespT.mapOpt]) (by intro c a; simp [advance, RespT.map])
-      p ch rest f hp hterm (by omega)
-  | .error p, e, h, rest, f, hf => by
+      p ch rest f d hp hterm (by omega)
+  | .error p, e, h, rest, f, d, hn, hf => by
     simp only [Accepts] at h
     obtain ⟨ch, he, hp, hterm⟩ := h
     subst he
     exact lineAs_complete s tError .error .error (parseLeaf_error s)
       (by intro d a; simp [toRespVec, RespT.mapOpt]) (by intro c a; simp [advance, RespT.map])
-      p ch rest f hp hterm (by omega)
-  | .integer p, e, h, rest, f, hf => by
+      p ch rest f d hp hterm (by omega)
+  | .integer p, e, h, rest, f, d, hn, hf => by
     simp only [Accepts] at h
     obtain ⟨ch, he, hp, hterm⟩ := h
     subst he
     exact lineAs_complete s tInteger .integer .integer (parseLeaf_integer s)
       (by intro d a; simp [toRespVec, RespT.mapOpt]) (by intro c a; simp [advance, RespT.map])
-      p ch rest f hp hterm (by omega)
-  | .bulkNil, e, h, rest, f, hf => by
+      p ch rest f d hp hterm (by omega)
+  | .bulkNil, e, h, rest, f, d, hn, hf => by
     simp only [Accepts] at h
     obtain ⟨L, ch, len, he, hL, hneg, hterm⟩ := h
     subst he
-    exact (nil_complete s tBulk L ch len rest f hL hneg hterm (by omega)).1 rfl
-  | .arrNil, e, h, rest, f, hf => by
+    exact (nil_complete s tBulk L ch len rest f d hL hneg hterm (by omega)).1 rfl
+  | .arrNil, e, h, rest, f, d, hn, hf => by
     simp only [Accepts] at h
     obtain ⟨L, ch, len, he, hL, hneg, hterm⟩ := h
     subst he
-    exact (nil_complete s tArr L ch len rest f hL hneg hterm (by omega)).2 rfl
-  | .bulk p, e, h, rest, f, hf => by
+    exact (nil_complete s tArr L ch len rest f d hL hneg hterm (by omega)).2 rfl (by simpa [NestOk] using hn)
+  | .bulk p, e, h, rest, f, d, hn, hf => by
     simp only [Accepts] at h
     obtain ⟨L, ch, t, he, hL, hterm, ht⟩ := h
     subst he
-    exact bulk_complete s L ch p t rest f hL hterm ht (by omega)
-  | .arr l, e, h, rest, f, hf => by
+    exact bulk_complete s L ch p t rest f d hL hterm ht (by omega)
+  | .arr l, e, h, rest, f, d, hn, hf => by
     simp only [Accepts] at h
     obtain ⟨L, ch, body, he, hL, hterm, hcap, hbody⟩ := h
     subst he
     obtain ⟨f', rfl⟩ : ∃ f', f = f' + 1 := ⟨f - 1, by omega⟩
     have hX : (L ++ [ch, LF] ++ body) ++ rest = L ++ ch :: LF :: (body ++ rest) := by simp
+    simp only [NestOk] at hn
+    have hne : ¬ (nestingExceeded d = true) := by have := hn.1; unfold nestAllowed at this; simp [this]
     simp only [List.cons_append, parseResp, parseLeaf_arr, hX, if_true]
-    rw [arrayHeader_complete s L ch l.length _ hL hterm hcap]
+    rw [if_neg hne, arrayHeader_complete s L ch l.length _ hL hterm hcap]
     simp only
     have hdrop : (L ++ ch :: LF :: (body ++ rest)).drop (L.length + 2) = body ++ rest := by
       have : L ++ ch :: LF :: (body ++ rest) = (L ++ [ch, LF]) ++ (body ++ rest) := by simp
       rw [this, List.drop_left' (by simp)]
     rw [hdrop]
-    obtain ⟨idxs, hpe, hvec⟩ := acceptsList_complete s l body hbody rest f'
-      (L ++ ch :: LF :: (body ++ rest)).length (L.length + 2)
+    obtain ⟨idxs, hpe, hvec⟩ := acceptsList_complete s l body hbody rest f' (d + 1)
+      (L ++ ch :: LF :: (body ++ rest)).length (L.length + 2) hn.2
       (by simp at hf ⊢; omega) (by simp; omega)
     rw [hpe]
     simp only [shift1]
@@ -174,28 +178,30 @@ theorem accepts_complete (s : Bool) : ∀ (v : Resp) (e : Bytes), Accepts s v e 
     rw [hvec (L ++ [ch, LF] ++ body) [] (by simp) (by rw [List.drop_left' (by simp)]; simp)]
     rfl
 theorem acceptsList_complete (s : Bool) : ∀ (l : List Resp) (e : Bytes), AcceptsList s l e →
-    ∀ (more : Bytes) (f bufLen c : Nat), (e ++ more).length + 2 ≤ f → c + (e ++ more).length = bufLen →
-    ∃ idxs, parseElems s f bufLen (e ++ more) l.length c = .ok (idxs, c + e.length) ∧
+    ∀ (more : Bytes) (f d bufLen c : Nat), NestOkList d l → (e ++ more).length + 2 ≤ f →
+    c + (e ++ more).length = bufLen →
+    ∃ idxs, parseElems s f d bufLen (e ++ more) l.length c = .ok (idxs, c + e.length) ∧
       ∀ D y, c ≤ D.length → D.drop c = e ++ y → toVecList D idxs = some l
-  | [], e, h, more, f, bufLen, c, hf, hb => by
+  | [], e, h, more, f, d, bufLen, c, hn, hf, hb => by
     simp only [AcceptsList] at h
     subst h
     refine ⟨[], by simp [parseElems], ?_⟩
     intro D y _ _
     simp [toVecList, RespT.mapOptList]
-  | v :: vs, e, h, more, f, bufLen, c, hf, hb => by
+  | v :: vs, e, h, more, f, d, bufLen, c, hn, hf, hb => by
+    simp only [NestOkList] at hn
     simp only [AcceptsList] at h
     obtain ⟨e1, e2, he, hv, hvs⟩ := h
     subst he
     obtain ⟨f', rfl⟩ : ∃ f', f = f' + 1 := ⟨f - 1, by omega⟩
     have hg : ¬ (c > bufLen) := by omega
     simp only [List.length_cons, parseElems, hg, if_false, List.append_assoc]
-    obtain ⟨idx, hp, hvec1⟩ := accepts_complete s v e1 hv (e2 ++ more) f' (by simp at hf ⊢; omega)
+    obtain ⟨idx, hp, hvec1⟩ := accepts_complete s v e1 hv (e2 ++ more) f' d hn.1 (by simp at hf ⊢; omega)
     obtain ⟨hpos, _⟩ := parseResp_bounds hp
     rw [hp]
     simp only
     rw [List.drop_left' rfl]
-    obtain ⟨idxs, hpe, hvec2⟩ := acceptsList_complete s vs e2 hvs more f' bufLen (c + e1.length)
+    obtain ⟨idxs, hpe, hvec2⟩ := acceptsList_complete s vs e2 hvs more f' d bufLen (c + e1.length) hn.2
       (by simp at hf ⊢; omega) (by simp at hb ⊢; omega)
     rw [hpe]
     simp only
@@ -209,8 +215,8 @@ theorem acceptsList_complete (s : Bool) : ∀ (l : List Resp) (e : Bytes), Accep
 end
 
 /-- completeness at the fuel that `parse` uses -/
-theorem parse_complete {s : Bool} {v : Resp} {e : Bytes} (h : Accepts s v e) (rest : Bytes) :
+theorem parse_complete {s : Bool} {v : Resp} {e : Bytes} (h : Accepts s v e) (hn : NestOk 0 v) (rest : Bytes) :
     ∃ idx, parse s (e ++ rest) = .ok (idx, e.length) ∧ toRespVec e idx = some v :=
-  accepts_complete s v e h rest _ (Nat.le_refl _)
+  accepts_complete s v e h rest _ 0 hn (Nat.le_refl _)
 
 end Um.Resp
